@@ -266,6 +266,30 @@ def it2(ctx, flavours):
     position advances on the Some path only"""
     F, G = ctx.F, ctx.G()
     out = []
+    # IT0: a node iterator is always built as (this node, position 0)
+    for fl in flavours:
+        for b in F.by_flavour(fl):
+            if b['kind'] == 'Closure':
+                continue
+            pv0 = F.prov(b)
+            for bb in b['blocks']:
+                if bb['cleanup']:
+                    continue
+                for s_ in bb['stmts']:
+                    if s_['k'] != 'assign' or s_['rv']['k'] != 'aggr' or not s_['rv']['ak'].startswith('adt:'):
+                        continue
+                    path = s_['rv']['ak'][4:].rsplit('::', 1)[0]
+                    if not NODE_ITERS.search(path) or path not in F.adts:
+                        continue
+                    flds = F.adts[path]['variants'][0]['fields']
+                    why0 = []
+                    for i, f in enumerate(flds):
+                        tm = strip_payload(pv0.of_operand(s_['rv']['ops'][i]))
+                        if F.types[f['ty']].get('s') == 'usize' and tm != ('const', '0_usize'):
+                            why0.append('%s starts at %s' % (f['name'], pretty(tm)))
+                        if F.ty_has_adt(f['ty'], r'::node::Node$') and tm != ('param', 1):
+                            why0.append('%s is %s, not the node the iterator was asked of' % (f['name'], pretty(tm)))
+                    out.append(Obl('IT0', b['q'], s_['sp'], 'node iterator built as (self, position 0)', not why0, '; '.join(why0) if why0 else path.split('::')[-1]))
     for fl in flavours:
         its = [b for b in F.by_flavour(fl) if b['impl_trait'] == 'std::iter::Iterator' and b['name'] == 'next' and NODE_ITERS.search(b['impl_self_q'])]
         if not its:
